@@ -29,6 +29,29 @@ start = e;
 e = e "+" e | e "*" e | e "-" e | "(" e ")" | NUM | e e;
 NUM = /[0-9]+/;
 '''
+# several token definitions that are rejected only when the lexer automaton is built: one diagnostic each, in the order of
+# the definitions - whatever order the conversions finish in
+BADPATS = '''grammar g;
+start = AA BBB CC DDDD EE FF;
+AA = /[a-z]{3,1}/;
+BBB = /[z-a]+/;
+CC = /[0-9]+/;
+DDDD = /x{5,2}y/;
+EE = /[9-0]/;
+FF = /(a|b){2,1}/;
+'''
+
+
+def bad_patterns(rng):
+    bad = ["/[a-z]{3,1}/", "/[z-a]+/", "/x{5,2}y/", "/[9-0]/", "/(a|b){2,1}/", "/[b-a][d-c]/", "/a{9,8}/"]
+    good = ["/[0-9]+/", "/[a-z]+/", "/if|else/", "/==?/"]
+    names = ["AA", "BBB", "CC", "DDDD", "EE", "FF", "GG", "HH"]
+    k = rng.choice([3, 4, 5, 6])
+    pats = [rng.choice(bad) if rng.random() < 0.7 else rng.choice(good) for _ in range(k)]
+    rng.shuffle(names)
+    return "grammar g;\nstart = %s;\n" % " ".join(names[:k]) + "".join("%s = %s;\n" % (n, p) for n, p in zip(names, pats))
+
+
 # conflicts whose report names synthesised non-terminals (gen<N>_group, gen_<x>_opt, _star, _plus)
 LALRSYN = '''grammar g;
 start = e;
@@ -69,7 +92,8 @@ def run(ctx):
     except Broken as b:
         ctx.add_broken(b.what, b.detail)
     rng = ctx.rng
-    texts = [MANY, DIAG, CONFLICT, LALRCONF, LALRSYN]
+    texts = [MANY, DIAG, CONFLICT, LALRCONF, LALRSYN, BADPATS]
+    texts += [bad_patterns(rng) for _ in range(8 if quick else 100)]
     texts += [synth_conflict(rng) for _ in range(12 if quick else 150)]
     texts += [c03.gen_defs(rng) for _ in range(40 if quick else 600)]
     texts += [c08.gen_spec(rng) for _ in range(30 if quick else 400)]
@@ -77,7 +101,10 @@ def run(ctx):
         if len(text) < 600:
             texts.append(text.decode())
     nin = 6
-    res = ctx.run_impl_par("det", ["%s %d" % (hx(t.encode()), nin) for t in texts], nproc=8, timeout=1500, isolate=True)
+    # specifications that fail fast are repeated more often: an order that depends on scheduling shows up rarely per run
+    def reps(t):
+        return 60 if ("{3,1}" in t or "[z-a]" in t or "{5,2}" in t or "[9-0]" in t or "{2,1}" in t or "[b-a]" in t or "{9,8}" in t) else nin
+    res = ctx.run_impl_par("det", ["%s %d" % (hx(t.encode()), reps(t)) for t in texts], nproc=8, timeout=1500, isolate=True)
     stats = {"specifications": len(texts), "in_process_runs": len(texts) * nin, "process_runs": 0, "generated": 0, "rejected": 0, "skipped_known_crash": 0}
     distinct = set()
     for t, r in zip(texts, res):
@@ -120,7 +147,7 @@ def run(ctx):
     finally:
         shutil.rmtree(root, ignore_errors=True)
     cov = {"evaluations": stats["in_process_runs"] + stats["process_runs"], "distinct_nontrivial": len(distinct),
-           "rule": "specifications with many accepting states per terminal, several diagnostics of each kind, token conflicts and LALR conflicts (also conflicts whose report names synthesised non-terminals), plus seeded random definition sets, escape-heavy specifications and defect-seeded specifications; each run 6 times in one process (whole pipeline; error text or the bytes of the six files compared) and 5 times in fresh processes of the real binary with -verbose (exit status, diagnostics without colour codes and emoji, SHA-256 of every emitted file); Go randomises map iteration per loop and the dependency shuffles its hash tables per call, so repeated runs see different orders; non-trivial = distinct specification",
+           "rule": "specifications with many accepting states per terminal, several diagnostics of each kind, token conflicts, several invalid patterns at once (60 in-process runs each) and LALR conflicts (also conflicts whose report names synthesised non-terminals), plus seeded random definition sets, escape-heavy specifications and defect-seeded specifications; each run 6 times in one process (whole pipeline; error text or the bytes of the six files compared) and 5 times in fresh processes of the real binary with -verbose (exit status, diagnostics without colour codes and emoji, SHA-256 of every emitted file); Go randomises map iteration per loop and the dependency shuffles its hash tables per call, so repeated runs see different orders; non-trivial = distinct specification",
            "samples": [texts[0][:200], texts[5][:200]], "outcomes": stats,
            "explanation": "proof of the principle (sorting erases collection order; the accepting-state lists are independent of the map order) and of the tie (the unordered loops of the source are exactly the classified ones, re-extracted on every run); byte-identity of whole runs is explored by repetition, not proved",
            "trusted_base": TRUSTED_BASE + ["translator fact `unordered` (syntactic: range over map-typed locals and over .All()/.Transitions() of dependency collections in the anchored files)",
